@@ -241,7 +241,7 @@ class CostProbe(object):
         self.n += 1
         for h in self.hooks:
             h(seq, xl)
-        y = self.f(xl, *args) if args else self.f(xl)
+        y = self.f(xl, *args) if (args or getattr(self, 'always_args', False)) else self.f(xl)
         if len(self.calls) < self.keep:
             self.calls.append((tuple(xl), y))
         return y
